@@ -1,3 +1,20 @@
-(* C16 placeholder until the proofs are in *)
-From EC Require Import Base.Prelude Coe.Sdo Coe.Run.
-Theorem c16_placeholder : True. Proof. exact I. Qed.
+(* C16 -- no mailbox reply can crash the MainDevice or make it read out of bounds. *)
+From EC Require Import Base.Prelude Base.Bytes Coe.Sdo Coe.Run Coe.SdoProofs.
+Local Open Scope N_scope.
+
+(* For ANY device - any telegrams already in its out mailbox, any bytes in reply to any of the
+   requests to come (other services, emergencies, aborts, truncated headers, lying length fields,
+   endless 'more fragments' or 'more segments'), any mailbox size - and every entry point
+   (sdo_read of any destination size, sdo_write, sdo_write_array, sdo_read_array, both SDO
+   information requests): the operation ends with a value or an error.  Every list access of the
+   model is a bounds-checked firstn/skipn/nth, so "never reads outside the response" is built in;
+   the correspondence run shows the implementation takes the same path on every generated reply. *)
+Theorem c16_total : forall d o, finr (fst (run d o)).
+Proof. exact run_total. Qed.
+Print Assumptions c16_total.
+
+(* a segmented upload never accumulates more than the destination buffer holds *)
+Theorem c16_buffer_bound : forall fuel toggle cap acc d out d', (length acc <= cap)%nat ->
+  segments fuel toggle cap acc d = (Ok out, d') -> (length out <= cap)%nat.
+Proof. exact segments_bound. Qed.
+Print Assumptions c16_buffer_bound.
